@@ -158,6 +158,16 @@ func readUdt(source []byte, inj injector, fieldNames []string, fieldCodecs []Cod
 	total := reader.Len()
 	for i, fieldCodec := range fieldCodecs {
 		name := fieldNames[i]
+		if reader.Len() == 0 {
+			// A UDT value is allowed to have less values than the type has fields (protocol specs, section 6):
+			// the missing trailing fields are null.
+			if decodedField, err := inj.zeroElem(i, name); err != nil {
+				return errCannotCreateUdtField(i, name, err)
+			} else if err = inj.setElem(i, name, decodedField, false, true); err != nil {
+				return errCannotInjectUdtField(i, name, err)
+			}
+			continue
+		}
 		if encodedField, err := primitive.ReadBytes(reader); err != nil {
 			return errCannotReadUdtField(i, name, err)
 		} else if decodedField, err := inj.zeroElem(i, name); err != nil {
